@@ -157,3 +157,140 @@ pub fn filter(x: &ALx) -> Option<Filter> {
 pub fn jpquery(segs: &[ASeg]) -> Option<JpQuery> {
     Some(JpQuery::new(segments(segs)?))
 }
+
+// ------------------------------------------------------------------------------------------------------------
+// the other direction: the AST the implementation's PARSER produced, in the specification's encoding, so that TLC
+// can compare it with its own parse of the same string (Trace_Eval.tla, aspect "ast")
+use serde_json::{json, Value};
+
+fn enc_int(i: i64) -> i64 {
+    if i.abs() <= 1_000_000 {
+        i
+    } else {
+        let d = i.abs() - MAXI;
+        let m = if (-2..=2).contains(&d) { BIG + d } else if d > 2 { BIG + 2 } else { BIG - 3 };
+        if i < 0 { -m } else { m }
+    }
+}
+fn enc_opt(i: &Option<i64>) -> i64 {
+    i.map(enc_int).unwrap_or(ABSENT)
+}
+/// raw name text of the parser -> member name; None if it contains an escape (D10 territory: not compared)
+fn raw_name(raw: &str) -> Option<Cps> {
+    let inner = if raw.len() >= 2 && ((raw.starts_with('\'') && raw.ends_with('\'')) || (raw.starts_with('"') && raw.ends_with('"'))) {
+        &raw[1..raw.len() - 1]
+    } else {
+        raw
+    };
+    if inner.contains('\\') { None } else { Some(string_to_cps(inner)) }
+}
+fn sel_blank() -> Value {
+    json!({"k": "wild", "n": [], "i": 0, "st": ABSENT, "en": ABSENT, "sp": ABSENT, "f": []})
+}
+fn expr_blank() -> Value {
+    json!({"k": "lit", "v": SVal::blank("null"), "abs": false, "segs": [], "fname": "", "args": [], "lx": []})
+}
+fn lx_blank() -> Value {
+    json!({"k": "test", "xs": [], "neg": false, "op": "", "es": []})
+}
+fn sel_json(s: &Selector) -> Option<Value> {
+    let mut v = sel_blank();
+    match s {
+        Selector::Name(raw) => { v["k"] = json!("name"); v["n"] = json!(raw_name(raw)?); }
+        Selector::Wildcard => {}
+        Selector::Index(i) => { v["k"] = json!("index"); v["i"] = json!(enc_int(*i)); }
+        Selector::Slice(a, b, c) => { v["k"] = json!("slice"); v["st"] = json!(enc_opt(a)); v["en"] = json!(enc_opt(b)); v["sp"] = json!(enc_opt(c)); }
+        Selector::Filter(f) => { v["k"] = json!("filter"); v["f"] = json!([filter_json(f)?]); }
+    }
+    Some(v)
+}
+fn seg_json(s: &Segment) -> Option<Value> {
+    Some(match s {
+        Segment::Selector(x) => json!({"desc": false, "sels": [sel_json(x)?]}),
+        Segment::Selectors(xs) => json!({"desc": false, "sels": xs.iter().map(sel_json).collect::<Option<Vec<_>>>()?}),
+        Segment::Descendant(inner) => { let mut v = seg_json(inner)?; v["desc"] = json!(true); v }
+    })
+}
+pub fn segs_json(segs: &[Segment]) -> Option<Value> {
+    Some(Value::Array(segs.iter().map(seg_json).collect::<Option<Vec<_>>>()?))
+}
+fn lit_json(l: &Literal) -> Option<Value> {
+    let v = match l {
+        Literal::Null => SVal::blank("null"),
+        Literal::Bool(b) => SVal { b: *b, ..SVal::blank("bool") },
+        Literal::Int(i) if i.abs() < 100_000_000 => SVal { m: *i, ..SVal::blank("num") },
+        Literal::Int(_) => return None,
+        Literal::Float(f) => { let (m, e) = decimal_of(*f)?; if e.abs() > 400 { return None; } SVal { m, e, f: true, ..SVal::blank("num") } }
+        Literal::String(s) => { if s.contains('\\') { return None; } SVal { s: string_to_cps(s), ..SVal::blank("str") } }
+    };
+    let mut e = expr_blank();
+    e["v"] = json!(v);
+    Some(e)
+}
+fn query_json(abs: bool, segs: &[Segment]) -> Option<Value> {
+    let mut e = expr_blank();
+    e["k"] = json!("q");
+    e["abs"] = json!(abs);
+    e["segs"] = segs_json(segs)?;
+    Some(e)
+}
+fn test_json(t: &Test) -> Option<Value> {
+    match t {
+        Test::RelQuery(segs) => query_json(false, segs),
+        Test::AbsQuery(q) => query_json(true, &q.segments),
+        Test::Function(f) => fn_json(f),
+    }
+}
+fn fnarg_json(a: &FnArg) -> Option<Value> {
+    match a {
+        FnArg::Literal(l) => lit_json(l),
+        FnArg::Test(t) => test_json(t),
+        FnArg::Filter(f) => { let mut e = expr_blank(); e["k"] = json!("lx"); e["lx"] = json!([filter_json(f)?]); Some(e) }
+    }
+}
+fn fn_json(f: &TestFunction) -> Option<Value> {
+    let (name, args): (String, Vec<&FnArg>) = match f {
+        TestFunction::Custom(n, a) => (n.clone(), a.iter().collect()),
+        TestFunction::Length(a) => ("length".into(), vec![a.as_ref()]),
+        TestFunction::Value(a) => ("value".into(), vec![a]),
+        TestFunction::Count(a) => ("count".into(), vec![a]),
+        TestFunction::Search(a, b) => ("search".into(), vec![a, b]),
+        TestFunction::Match(a, b) => ("match".into(), vec![a, b]),
+    };
+    let mut e = expr_blank();
+    e["k"] = json!("fn");
+    e["fname"] = json!(name);
+    e["args"] = Value::Array(args.into_iter().map(fnarg_json).collect::<Option<Vec<_>>>()?);
+    Some(e)
+}
+fn comparable_json(c: &Comparable) -> Option<Value> {
+    match c {
+        Comparable::Literal(l) => lit_json(l),
+        Comparable::Function(f) => fn_json(f),
+        Comparable::SingularQuery(q) => {
+            let (abs, segs) = match q { SingularQuery::Current(s) => (false, s), SingularQuery::Root(s) => (true, s) };
+            let segs: Vec<Segment> = segs.iter().map(|s| match s {
+                SingularQuerySegment::Index(i) => Segment::Selector(Selector::Index(*i)),
+                SingularQuerySegment::Name(n) => Segment::Selector(Selector::Name(n.clone())),
+            }).collect();
+            query_json(abs, &segs)
+        }
+    }
+}
+pub fn filter_json(f: &Filter) -> Option<Value> {
+    let mut v = lx_blank();
+    match f {
+        Filter::Or(xs) => { v["k"] = json!("or"); v["xs"] = Value::Array(xs.iter().map(filter_json).collect::<Option<Vec<_>>>()?); }
+        Filter::And(xs) => { v["k"] = json!("and"); v["xs"] = Value::Array(xs.iter().map(filter_json).collect::<Option<Vec<_>>>()?); }
+        Filter::Atom(FilterAtom::Filter { expr, not }) => { v["k"] = json!("paren"); v["neg"] = json!(not); v["xs"] = json!([filter_json(expr)?]); }
+        Filter::Atom(FilterAtom::Test { expr, not }) => { v["neg"] = json!(not); v["es"] = json!([test_json(expr)?]); }
+        Filter::Atom(FilterAtom::Comparison(c)) => {
+            let (op, l, r) = match c.as_ref() {
+                Comparison::Eq(l, r) => ("==", l, r), Comparison::Ne(l, r) => ("!=", l, r), Comparison::Gt(l, r) => (">", l, r),
+                Comparison::Gte(l, r) => (">=", l, r), Comparison::Lt(l, r) => ("<", l, r), Comparison::Lte(l, r) => ("<=", l, r),
+            };
+            v["k"] = json!("cmp"); v["op"] = json!(op); v["es"] = json!([comparable_json(l)?, comparable_json(r)?]);
+        }
+    }
+    Some(v)
+}
